@@ -138,7 +138,16 @@ class ExprMixin:
         return LambdaV(n, fr, fr.fi)
 
     def ev_IfExp(self, n, fr):
-        c = self.truth(self.ev(n.test, fr), fr, n)
+        c = sym.simp(self.truth(self.ev(n.test, fr), fr, n))
+        if not (z3.is_true(c) or z3.is_false(c)):
+            from .interp_stmt import _simple_expr
+            if _simple_expr(n.body) and _simple_expr(n.orelse):
+                a = self.try_merge_operand(NONE, c, True, n.body, fr, n)
+                if a is not None:
+                    b = self.try_merge_operand(NONE, c, False, n.orelse, fr, n)
+                    if b is not None:
+                        # a = If(c, body, None), b = If(!c, orelse, None)
+                        return SV(sym.simp(z3.If(c, a.t, b.t)))
         if self.run.decide(c, 'ifexp'):
             return self.ev(n.body, fr)
         return self.ev(n.orelse, fr)
@@ -173,6 +182,7 @@ class ExprMixin:
         snap = (len(run.pc), len(run.obls), run.nfresh, dict(self.heap.a))
         run.no_fork += 1
         run.solver.push()
+        run.solver.add(guard)
         n0 = len(run.pc)
         run.pc.append(guard)
         try:
